@@ -45,7 +45,9 @@ def shapes():
   def s_logzero(r):
     from vizier import pyvizier as vz
     r.add_float_param('x', 0.0, 1.0, scale_type=vz.ScaleType.LOG); r.add_float_param('y', 0.0, 1.0)
-  return {'defaults': s_defaults, 'baddefault': s_baddefault, 'logzero': s_logzero, 'unit': s_unit, 'neg': s_neg, 'log': s_log, 'int': s_int, 'disc': s_disc, 'cat': s_cat, 'mixed': s_mixed, 'single': s_single,
+  # decimal bounds: lo + 1.0 * (hi - lo) computed by hand lands one ulp outside for about one pair in ten
+  def s_decimal(r): r.add_float_param('x', 0.3, 0.9); r.add_float_param('y', -0.1, 0.3); r.add_float_param('z', 0.6, 1.7)
+  return {'decimal': s_decimal, 'defaults': s_defaults, 'baddefault': s_baddefault, 'logzero': s_logzero, 'unit': s_unit, 'neg': s_neg, 'log': s_log, 'int': s_int, 'disc': s_disc, 'cat': s_cat, 'mixed': s_mixed, 'single': s_single,
           'bool': s_bool, 'big': s_big, 'tiny': s_tiny, 'bin': s_bin, 'f32edge': s_f32edge, 'hugelog': s_hugelog, 'tinylog': s_tinylog}
 
 
